@@ -9,7 +9,8 @@ operation; the last buffer is a writable OverflowableBuffer).
 
 A case is JSON-able:
     {"cfg": [strbuf_limit, outbuf_overflow, outbuf_high_watermark, send_bytes, sendbuf_len],
-     "ops": [["w", hex, answers] | ["f", contenthex, pos, size|None, answers] | ["x", answers], ...]}
+     "ops": [["w", hex, answers] | ["f", contenthex, pos, size|None, answers] | ["x", answers]
+             | ["c", answers]  (send_continue()), ...]}
     answers: list of ints (the socket accepts min(k, len(chunk)) bytes) and "R" (socket.send raises
     EHOSTUNREACH, an errno dispatcher.send re-raises); when the answers are used up the socket accepts
     nothing (EWOULDBLOCK).
@@ -124,7 +125,17 @@ def show(b):
     return "#%d:%s" % (len(b), hashlib.md5(b).hexdigest())
 
 
+CONTINUE = b"HTTP/1.1 100 Continue\r\n\r\n"
+
+
+class _Req:
+    """the partially received request send_continue() marks"""
+    expect_continue = True
+
+
 def written_of(op):
+    if op[0] == "c":
+        return CONTINUE
     if op[0] == "w":
         return bytes.fromhex(op[1]) if op[1] != "-" else b""
     if op[0] == "f":
@@ -166,6 +177,7 @@ def run_real(case):
         ch._flush_some = rec_flush
         expected = b""
         maxw = [0]
+        ncont = [0]
         for i, op in enumerate(case["ops"]):
             sock.answers = list(op[-1])
             sock.wire = b""
@@ -196,6 +208,10 @@ def run_real(case):
                         ch._flush_some()
                     except OSError:
                         stop = "sockraised"
+                elif op[0] == "c":
+                    ch.request = _Req()
+                    ch.send_continue(do_close=False)
+                    expected += CONTINUE
                 else:
                     raise ValueError(op)
             except WouldWait:
@@ -218,7 +234,9 @@ def run_real(case):
             # per-buffer bound (C12_buffer_rotation_bound): W = the largest byte string written so far
             if op[0] == "w":
                 maxw[0] = max(maxw[0], len(data))
-            bound = max(hw - 1, 0) + maxw[0]
+            if op[0] == "c":
+                ncont[0] += 1           # an interim response is appended without looking at the watermark
+            bound = max(hw - 1, 0) + maxw[0] + len(CONTINUE) * ncont[0]
             for b in ch.outbufs:
                 if isinstance(b, wb.OverflowableBuffer) and b.__len__() > bound:
                     problems.append((i, "an OverflowableBuffer holds %d bytes, more than max(high_watermark-1,0)+W = %d" % (b.__len__(), bound)))
@@ -261,6 +279,8 @@ def model_line(case):
             parts.append("w %s %s" % (op[1], ans_s(op[2])))
         elif op[0] == "f":
             parts.append("f %s %d %s %s" % (op[1], op[2], "none" if op[3] is None else op[3], ans_s(op[4])))
+        elif op[0] == "c":
+            parts.append("c %s" % ans_s(op[1]))
         else:
             parts.append("x %s" % ans_s(op[1]))
     return " ; ".join(parts)
@@ -326,7 +346,11 @@ def gen_case(rng, big=False):
             ops.append(["x", a])
             if a and all(isinstance(x, int) and x >= (1 << 20) for x in a) and len(a) >= total + 2:
                 total = 0
-        elif r < 0.42:
+        elif r < 0.36:
+            a = gen_answers(rng, total, sendbuf_len)
+            ops.append(["c", a])
+            total += len(CONTINUE)
+        elif r < 0.46:
             if big:
                 content = bytes((counter[0] + i) % 251 + 1 for i in range(rng.choice([0, 1, 5000, 70000])))
             else:
@@ -377,3 +401,80 @@ def shrink(case, fails):
             except Exception:
                 pass
     return cur
+
+
+def run_slice(ctx, n_cases, label, want_continue=False):
+    """K-chanout + S-chanout on n_cases generated histories, for the checks that cite the byte-level
+    theorems (C12: per-buffer bound, C19: placement of the interim response).  Reports violations
+    through ctx.report, returns the statistics dict."""
+    import hashlib
+    import json
+    st = {"cases": 0, "ops_compared": 0, "disagreements": 0, "spec_problems": 0, "with_several_buffers": 0,
+          "continue_ops": 0, "continue_behind_file": 0, "dist": {}}
+    runner = ctx.runner("chanout", "ExtChanout.v")
+    if runner is None:
+        ctx.oblige("extracted ChanOut model runner builds", False, "see notes")
+        return st
+    cases = [gen_case(ctx.rng, big=(i % 20 == 19)) for i in range(n_cases)]
+    if want_continue:
+        # directed: a deferred interim response while a file-wrapper response is still queued
+        for k in range(max(20, n_cases // 20)):
+            content = bytes((k + i) % 251 + 1 for i in range(ctx.rng.choice([1, 5, 30, 200])))
+            ops = [["w", hexb(b"HEAD%d" % k), []], ["f", hexb(content), 0, None, gen_answers(ctx.rng, 0, 3)],
+                   ["c", gen_answers(ctx.rng, 0, 3)], ["w", hexb(b"NEXT"), gen_answers(ctx.rng, 0, 3)], ["x", [1 << 20] * 400]]
+            cases.append({"cfg": [ctx.rng.choice([1, 3, 8]), ctx.rng.choice([2, 6, 20]), ctx.rng.choice([4, 30, 1000]),
+                                  ctx.rng.choice([1, 18, 10000]), ctx.rng.choice([1, 3, 64])], "ops": ops})
+    answers = runner.query([model_line(c) for c in cases])
+    bad = []
+    for c, a in zip(cases, answers):
+        rows, problems = run_real(c)
+        st["cases"] += 1
+        st["ops_compared"] += len(rows)
+        case_stats(c, st["dist"])
+        if any(r.startswith("wire=") and r.count(",") >= 1 for r in rows):
+            st["with_several_buffers"] += 1
+        kinds = [op[0] for op in c["ops"]]
+        st["continue_ops"] += kinds.count("c")
+        for i, k in enumerate(kinds):
+            if k == "c" and i < len(rows) and i > 0 and rows[i - 1].startswith("wire=") and ",R" in rows[i - 1].split("bufs=")[-1]:
+                st["continue_behind_file"] += 1
+        d = compare(rows, a)
+        if d is not None:
+            st["disagreements"] += 1
+            bad.append(("model", c, d))
+        if problems:
+            st["spec_problems"] += 1
+            bad.append(("spec", c, problems[0]))
+    for kind, c, d in sorted(bad, key=lambda t: (t[0] != "spec", len(json.dumps(t[1]))))[:2]:
+        def still(c2, kind=kind):
+            rows2, pr2 = run_real(c2)
+            return bool(pr2) if kind == "spec" else compare(rows2, runner.query([model_line(c2)])[0]) is not None
+        c_min = shrink(c, still)
+        rows2, pr2 = run_real(c_min)
+        d2 = pr2[0] if kind == "spec" and pr2 else (compare(rows2, runner.query([model_line(c_min)])[0]) or d)
+        what = ("%s: output queue of the real channel (write_soon / send_continue / _flush_some): operation %d: %s" % (label, d2[0] + 1, d2[1])
+                if kind == "spec" else
+                "%s: the real write_soon / send_continue / _flush_some and Model/ChanOut.v disagree at operation %d: model %s | real %s"
+                % (label, d2[0] + 1, d2[1], d2[2]))
+        ctx.report("chanout:%s:%s" % (kind, hashlib.sha1(json.dumps(c_min, sort_keys=True).encode()).hexdigest()[:8]), what,
+                   {"kind": "chanout", "case": c_min, "against": kind, "observed": d2[1] if kind == "spec" else d2[2],
+                    "expected": "socket bytes ++ queued bytes = written bytes in order (the interim response once, in place); counters exact; buffers bounded"
+                    if kind == "spec" else d2[1], "failing_input_found": kind == "spec"})
+    return st
+
+
+def replay_case(data):
+    """shared replay of a {"kind": "chanout"} replay dict -> exit status"""
+    import json
+    import os
+    from lib import vcommon
+    rows, problems = run_real(data["case"])
+    for op, r in zip(data["case"]["ops"], rows):
+        print("  %-40s -> %s" % (json.dumps(op)[:40], r))
+    print("specification now: %r" % (problems,))
+    d = None
+    rp = os.path.join(vcommon.VERIF, "ocaml", "chanout", "runner")
+    if os.path.exists(rp):
+        d = compare(rows, vcommon.Runner(rp).query([model_line(data["case"])])[0])
+        print("model comparison now: %r" % (d,))
+    return 1 if (problems or d) else 0
